@@ -142,6 +142,8 @@ def parse_ev(line):
 
 # 9014: the harness descheduled a library goroutine between two statements; no promptness bound is claimed for such a run
 ENV_STALL = 9014
+# 9015: the application's Logger took time for a message (a call-out of the library that is slow): no promptness bound either
+ENV_SLOWLOG = 9015
 PROMPT = {301, 302, 303, 304, 601, 905, 1810, 1002, 1003, 1102, 1103, 1107, 1202, 1203, 1205, 1902}
 OVERDUE = {301, 302, 303, 304, 601, 1002, 1003, 1102, 1103, 1107, 1202, 1203, 1205, 1902}
 
@@ -350,7 +352,7 @@ def _evaluate(pid, d, res, results, tier):
         if applicable:
             n_applicable += 1
         hits = [(i, c) for i, c in r["alarms"] if c in d["codes"] and not (env & d["code_env"].get(c, set()))
-                and not (ENV_STALL in env and c in PROMPT)]
+                and not ((ENV_STALL in env or ENV_SLOWLOG in env) and c in PROMPT)]
         if r["verdict"] != "ok" and pid in ("C09", "C13", "C11"):
             code = {"C09": 906, "C13": 1304, "C11": 1105}[pid] if r["verdict"] == "crash" else {"C09": 907, "C13": 1305, "C11": 1106}[pid]
             hits.append((max(0, r["n_events"] - 1), code))
